@@ -85,6 +85,19 @@ def alpha(arr):
     return [dy(x) for x in a.astype(float).ravel().tolist()]
 
 
+def alpha_hypot(arr):
+    """abs() of a complex array goes through the C library's hypot, which is accurate to an ulp but not exact even on Pythagorean
+    entries: the result is taken on the 2^-20 lattice when it lies within 1e-9 (relative) of it, and rejected as it is otherwise"""
+    out = []
+    for x in np.asarray(arr, dtype=float).ravel().tolist():
+        if math.isfinite(x):
+            r = round(x * 1048576.0) / 1048576.0
+            if abs(x - r) <= 1e-9 * max(1.0, abs(x)):
+                x = r
+        out.append(dy(x))
+    return out
+
+
 def fp_bytes(*parts):
     h = hashlib.blake2b(digest_size=12)
     for p in parts:
@@ -303,7 +316,7 @@ UNUFS = {"neg": np.negative, "abs": np.abs, "sqrt": np.sqrt, "square": np.square
 DEFAULTS = {"x": "a", "op": "", "kind": "", "route": "operator", "bv": [], "keep": False, "retain": False, "same_id": False, "how": "",
             "keykind": "", "gran": "row", "sel": [], "vv": [], "view": "", "arg": [], "raised": "", "res": [], "res2": [],
             "res_cls": True, "res_mask": True, "res_geom": True, "res_os": True, "res_shape": True, "own": True, "fx": 0,
-            "nd_ok": True}
+            "nd_ok": True, "owner": ""}
 
 
 def _scalar(bv, cplx):
@@ -342,6 +355,39 @@ def _container_facts(cls, res, src):
         os_ok = False
     f["res_os"] = bool(os_ok)
     return f
+
+
+DUNDER = {"add": "__add__", "sub": "__sub__", "mul": "__mul__", "div": "__truediv__", "fdiv": "__floordiv__", "pow": "__pow__",
+          "mod": "__mod__", "lt": "__lt__", "le": "__le__", "gt": "__gt__", "ge": "__ge__", "eq": "__eq__", "ne": "__ne__",
+          "neg": "__neg__", "abs": "__abs__", "invert": "__invert__"}
+VIEW_ATTR = {"slim": "slim", "native": "native", "sum": "sum", "max": "max", "min": "min", "index": "__getitem__",
+             "tail": "__getitem__", "apply_mask": "apply_mask", "vy": "y", "vx": "x", "magnitudes": "magnitudes",
+             "amplitudes": "amplitudes", "phases": "phases", "is_uniform": "is_uniform", "avgmag": "average_magnitude",
+             "avgphi": "average_phi", "within_radius": "vectors_within_radius", "within_annulus": "vectors_within_annulus",
+             "npsum": "__array__", "npmax": "__array__"}
+
+
+def owner_of(obj, act):
+    """the class that defines the method an action calls (the call site named by a signature)"""
+    t = act["a"]
+    if t in ("Binary", "InPlace", "Unary"):
+        name = DUNDER.get(act.get("op"), "__array__")
+        if act.get("kind") in ("rscalar", "rrow") and name.startswith("__") and t == "Binary":
+            name = "__r" + name[2:]
+        if act.get("route") == "ufunc" or act.get("kind") == "rnd":
+            name = "__array__"
+        if act.get("route") == "with_new_array":
+            name = "with_new_array"
+    elif t == "Copy":
+        name = {"copy": "__copy__", "deepcopy": "__deepcopy__", "pickle": "__reduce_ex__", "method": "copy"}[act["how"]]
+    elif t == "Edit":
+        name = "__setitem__"
+    else:
+        name = VIEW_ATTR.get(act.get("view"), "__array__")
+    for k in type(obj).__mro__:
+        if name in k.__dict__:
+            return k.__name__ if k is not object else type(obj).__name__
+    return type(obj).__name__
 
 
 def _exc_name(e):
@@ -386,6 +432,7 @@ def run_episode(epi):
         r.update(base)
         r.update({f: act[f] for f in act if f in DEFAULTS or f == "a"})
         r["step"] = k
+        r["owner"] = owner_of(slots[act.get("x", "a")], act)
         kind = act.get("kind", "")
         nd = None
         nd_fp = None
@@ -438,7 +485,7 @@ def run_episode(epi):
                 route = act.get("route", "operator")
                 res = UNOPS[act["op"]](A) if route == "operator" else UNUFS[act["op"]](A)
                 r["keep"] = type(res) is type(A)
-                r["res"] = alpha(getattr(res, "array", res))
+                r["res"] = alpha_hypot(getattr(res, "array", res)) if (cplx and act["op"] == "abs") else alpha(getattr(res, "array", res))
                 if r["keep"]:
                     r.update(_container_facts(cls, res, A))
                     if len(r["res"]) == len(alpha(A.array)):
@@ -542,7 +589,7 @@ def cells_of(h, w, u):
     return [(k // w, k % w) for k in u]
 
 
-def given_for(cls, slim_vals, role, h, w, u):
+def given_for(cls, slim_vals, role, h, w, u, pa=""):
     """flattened [n, e] content over the unmasked cells for class cls, derived from the single-component abstract content"""
     comp, cplx, has_mask, _ = META[cls]
     fl = [val(v) for v in slim_vals]
@@ -552,6 +599,11 @@ def given_for(cls, slim_vals, role, h, w, u):
         if role == "a":
             return [dy(0.0 if k in us else 1.0) for k in range(h * w)]
         return [dy(1.0 if (k in us) == (k % 2 == 0) else 0.0) for k in range(h * w)]
+    if cls == "Grid2D" and role == "a" and pa == "ramp":
+        # the coordinates of a uniform grid (distinct per cell), so that is_uniform has something to say
+        for k in u:
+            out += [dy(float(-(k // w))), dy(2.0 * (k % w))]
+        return out
     for k, v in enumerate(fl):
         if comp == 1 and not cplx:
             out.append(dy(v))
@@ -615,7 +667,7 @@ def instantiate(beh, cls, ep, salt=0):
     shape = stored_shape(cls, h, w, u, nat)
     n_elems = int(np.prod(shape))
     epi = {"ep": ep, "cls": cls, "h": h, "w": w, "u": u, "nat": nat,
-           "given_a": given_for(cls, beh["sa"], "a", h, w, u), "given_b": given_for(cls, beh["sb"], "b", h, w, u),
+           "given_a": given_for(cls, beh["sa"], "a", h, w, u, beh.get("pa", "")), "given_b": given_for(cls, beh["sb"], "b", h, w, u),
            "gpos": [list(c) for c in cells_of(h, w, u)], "actions": []}
     for k, a in enumerate(beh["acts"]):
         act = {f: a[f] for f in ("a", "x", "op", "kind", "route", "how", "keykind", "view") if f in a}
@@ -655,32 +707,34 @@ def instantiate(beh, cls, ep, salt=0):
         if act["a"] == "Read":
             v = act["view"]
             if v == "cview":
-                v = {"Visibilities": "amplitudes", "VisibilitiesNoiseMap": "phases" if rot % 2 else "amplitudes",
-                     "Grid2D": "is_uniform"}.get(cls, "slim")
-            if v == "special":
-                lst = SPECIAL.get(cls, ["npsum", "npmax", "min"])
-                v = lst[rot % len(lst)]
-            if v == "apply_mask" and (cls not in ("Array2D", "VectorYX2D") or len(u) < 2):
-                v = "native"
-            if cplx and v in ("max", "npmax", "min"):
-                v = "sum"
-            if cls == "Mask2D" and v in ("slim", "native", "max", "npmax", "min", "sum", "npsum"):
-                v = "index"
-            if cls == "Grid2D" and v == "is_uniform" and nat:
-                v = "slim"  # is_uniform indexes the stored array as [N,2]
-            if cls == "VectorYX2D" and v == "magnitudes" and nat:
-                v = "vy"  # magnitudes indexes the stored array as [N,2] (observed, see registry)
-            act["view"] = v
-            if v in ("index", "tail"):
-                act["arg"] = [1 if shape[0] > 1 else 0]
-            elif v == "apply_mask":
-                act["arg"] = u[1:]
-            elif v == "within_radius":
-                act["arg"] = [[1, 3, 5, 9, 19][rot % 5], rot % 2, (rot // 2) % 2]
-            elif v == "within_annulus":
-                act["arg"] = [[-1, 1, 3][rot % 3], [3, 5, 9, 19][rot % 4], rot % 2, (rot // 2) % 2]
+                vs = {"Visibilities": ["amplitudes", "phases"], "VisibilitiesNoiseMap": ["phases", "amplitudes"],
+                      "Grid2D": ["is_uniform"]}.get(cls, ["slim"])
+            elif v == "special":
+                vs = SPECIAL.get(cls, ["npsum", "npmax", "min"])
             else:
-                act["arg"] = []
+                vs = [v]
+            for j, v in enumerate(vs):
+                if v == "apply_mask" and (cls not in ("Array2D", "VectorYX2D") or len(u) < 2):
+                    v = "native"
+                if cplx and v in ("max", "npmax", "min"):
+                    v = "sum"
+                if cls == "Mask2D" and v in ("slim", "native", "max", "npmax", "min", "sum", "npsum"):
+                    v = "index"
+                if cls == "Grid2D" and v == "is_uniform" and nat:
+                    v = "slim"  # is_uniform indexes the stored array as [N,2]
+                a2 = dict(act, view=v)
+                if v in ("index", "tail"):
+                    a2["arg"] = [1 if shape[0] > 1 else 0]
+                elif v == "apply_mask":
+                    a2["arg"] = u[1:]
+                elif v == "within_radius":
+                    a2["arg"] = [[1, 3, 5, 9, 19][(rot + j) % 5], rot % 2, (rot // 2) % 2]
+                elif v == "within_annulus":
+                    a2["arg"] = [[-1, 1, 3][(rot + j) % 3], [3, 5, 9, 19][rot % 4], rot % 2, (rot // 2) % 2]
+                else:
+                    a2["arg"] = []
+                epi["actions"].append(a2)
+            continue
         epi["actions"].append(act)
     return epi
 
@@ -709,22 +763,23 @@ INVARIANTS = ["SlimNativeCommute", "NativeViewZeroOutsideMask", "ResultIsElement
               "CopyIndependent", "ReadsReportOwnContent", "SlimOfNative"]
 
 
-def machine_cfg(inv=True):
-    names = ["Shapes", "Stores", "Pats", "OpsBin", "Kinds", "Scalars", "Routes", "OpsUn", "OpsIn", "KindsIn", "Hows",
+def machine_cfg(inv=True, only=None):
+    names = ["Shapes", "DumpShapes", "Stores", "Pats", "OpsBin", "Kinds", "Scalars", "Routes", "OpsUn", "OpsIn", "KindsIn", "Hows",
              "Keys", "EditSlots", "Views", "ReadSlots", "MaxLen", "SetItemDropsCaches", "CopySharesArray"]
     s = "CONSTANTS\n" + "".join(f"  {n} <- MC{n}\n" for n in names) + "SPECIFICATION Spec\n"
     if inv:
-        s += "".join(f"INVARIANT {i}\n" for i in INVARIANTS)
+        s += "".join(f"INVARIANT {i}\n" for i in (only or INVARIANTS))
     return s
 
 
-def machine_defs(shapes, stores=(False, True), pats=(("ramp", "pow2s"), ("signed0", "small0")), ops=ALL_BIN,
+def machine_defs(shapes, dump_shapes=None, stores=(False, True), pats=(("ramp", "pow2s"), ("signed0", "small0")), ops=ALL_BIN,
                  kinds=ALL_KINDS, scalars=SCALARS, routes=("operator", "ufunc"), un=ALL_UN, opin=ALL_IN,
                  kindin=("scalar", "nd", "obj", "self"), hows=ALL_HOWS, keys=ALL_KEYS, edit_slots=("a", "c", "r"), views=ALL_VIEWS,
                  read_slots=("a", "c", "r"), maxlen=1, drops=True, shares=False):
     b = lambda x: "TRUE" if x else "FALSE"  # noqa
     return "\n".join([
         f"MCShapes == {tla_pairs(shapes)}",
+        f"MCDumpShapes == {tla_pairs(dump_shapes if dump_shapes is not None else shapes)}",
         "MCStores == {" + ", ".join(b(x) for x in stores) + "}",
         "MCPats == {" + ", ".join(f'<<"{a}", "{b}">>' for a, b in pats) + "}",
         f"MCOpsBin == {tla_str_set(ops)}", f"MCKinds == {tla_str_set(kinds)}", f"MCScalars == {tla_pairs(scalars)}",
@@ -737,6 +792,7 @@ def machine_defs(shapes, stores=(False, True), pats=(("ramp", "pow2s"), ("signed
 
 TRACE_CFG = """CONSTANTS
   Shapes = {}
+  DumpShapes = {}
   Stores = {}
   Pats = {}
   OpsBin = {}
@@ -768,13 +824,14 @@ def shapes_upto(max_cells):
 def beh_of_inst(r):
     hist = r["hist"]
     return {"h": r["h"], "w": r["w"], "u": r["u"], "nat": r["nat"], "sa": hist[0]["sa"], "sb": hist[0]["sb"],
-            "acts": hist[1:]}
+            "pa": hist[0]["pa"], "acts": hist[1:]}
 
 
 def enumerate_machine(ctx, tag, timeout=1500, **kw):
     res = ctx.tlc(MODULE, machine_cfg(), defs=machine_defs(**kw), tag=tag, timeout=timeout, coverage=False,
                   env={"_JAVA_OPTIONS": "-Xss32m"})
     behs = [beh_of_inst(r) for r in res.by_kind("inst")]
+    res.records = []
     if not behs:
         raise core.MachineryError(f"Algebra.tla ({tag}) dumped no behaviour")
     # TLC workers print in nondeterministic order: sort for reproducibility
@@ -799,7 +856,7 @@ def simulate_machine(ctx, tag, num, depth, **kw):
         if not hist or len(hist) < 2:
             continue
         behs.append({"h": env["h"], "w": env["w"], "u": env["u"], "nat": env["nat"], "sa": hist[0]["sa"], "sb": hist[0]["sb"],
-                     "acts": hist[1:]})
+                     "pa": hist[0]["pa"], "acts": hist[1:]})
     behs.sort(key=lambda b: repr((b["h"], b["w"], b["u"], b["nat"], b["sa"], b["sb"], b["acts"])))
     return behs
 
@@ -967,6 +1024,48 @@ def observed_not_judged(ctx):
     ctx.note("observed, not judged: " + "; ".join(f"{k} -> {v}" for k, v in obs.items()))
 
 
+def beh_signature(b):
+    """the abstract shape of a behaviour: which kind of action touches which object, in order"""
+    out = []
+    for a in b["acts"]:
+        t = a["a"]
+        if t == "Binary":
+            out.append((t, a["x"], "cmp" if a["op"] in ("lt", "le", "gt", "ge", "eq", "ne") else a["op"], a["kind"], a.get("route"),
+                        repr(a.get("bv"))))
+        elif t == "Unary":
+            out.append((t, a["x"], a["op"]))
+        elif t == "InPlace":
+            out.append((t, a["op"], a["kind"], repr(a.get("bv"))))
+        elif t == "Copy":
+            out.append((t, a["how"]))
+        elif t == "Edit":
+            out.append((t, a["x"], a["keykind"]))
+        else:
+            out.append((t, a["x"], a["view"]))
+    return (b["nat"], tuple(out))
+
+
+def cover(behs, rng, n, per=1):
+    """one (seeded) representative of every behaviour signature first, then a seeded sample of the rest, up to n"""
+    if len(behs) <= n:
+        return list(behs)
+    groups = {}
+    for k, b in enumerate(behs):
+        groups.setdefault(beh_signature(b), []).append(k)
+    chosen = []
+    for sig in sorted(groups, key=repr):
+        g = groups[sig]
+        for j in rng.choice(len(g), size=min(per, len(g)), replace=False).tolist():
+            chosen.append(g[j])
+    if len(chosen) > n:
+        chosen = [chosen[j] for j in sorted(rng.choice(len(chosen), size=n, replace=False).tolist())]
+    else:
+        rest = sorted(set(range(len(behs))) - set(chosen))
+        extra = rng.choice(len(rest), size=min(n - len(chosen), len(rest)), replace=False).tolist()
+        chosen += [rest[j] for j in extra]
+    return [behs[k] for k in sorted(set(chosen))]
+
+
 def make_episodes(behs, start_ep, classes=CLASSES):
     epis = []
     ep = start_ep
@@ -979,60 +1078,103 @@ def make_episodes(behs, start_ep, classes=CLASSES):
     return epis, ep
 
 
+COMPACT = dict(ops=["add", "div", "lt"], kinds=["scalar", "obj"], scalars=[(1, -1), (0, 0)], routes=["operator"], un=["neg"],
+               opin=["add", "div"], kindin=["scalar", "obj"], hows=["copy", "pickle"], keys=["int", "boolfull"],
+               edit_slots=["a", "c"], views=["native", "cview", "sum"], read_slots=["a", "c", "r"], pats=[("ramp", "small0")])
+# the alphabet on which cached views, copies and edits interact (histories decide, values do not)
+CACHE = dict(ops=["add"], kinds=["obj"], scalars=[(1, -1)], routes=["operator"], un=[], opin=["mul"], kindin=["scalar"],
+             hows=["copy", "pickle"], keys=["int"], edit_slots=["a", "c"], views=["cview", "special"], read_slots=["a", "c", "r"],
+             pats=[("ramp", "pow2s")], stores=[False])
+CACHED_CLASSES = ["Visibilities", "VisibilitiesNoiseMap", "Grid2D", "VectorYX2D", "VectorYX2DIrregular"]
+
+
 def run(ctx):
     quick = ctx.quick
     rng = np.random.default_rng(ctx.seed)
     wide_cells = 4 if quick else 6
     deep_len = 2 if quick else 3
+    cache_len = 3 if quick else 4
+    import concurrent.futures as cf
+
     # (A) every mask of every small frame x both storage forms x value patterns x every single action of the full alphabet
-    resA, behA = enumerate_machine(ctx, "MC_wide", shapes=shapes_upto(wide_cells), maxlen=1)
     # (B) every action sequence up to deep_len over a compact alphabet on masks with masked and unmasked cells
-    compact = dict(ops=["add", "div", "lt"], kinds=["scalar", "obj"], scalars=[(1, -1), (0, 0)], routes=["operator"], un=["neg"],
-                   opin=["mul", "div"], kindin=["scalar", "obj"], hows=["copy", "pickle"] if quick else ["copy", "deepcopy", "pickle"],
-                   keys=["int", "boolfull"], edit_slots=["a", "c"], views=["native", "cview", "sum"], read_slots=["a", "c"],
-                   pats=[("ramp", "small0")] if quick else [("ramp", "small0"), ("signed0", "pow2s")])
-    resB, behB = enumerate_machine(ctx, "MC_deep", shapes=[(1, 2), (2, 2)] if quick else [(1, 2), (1, 3), (2, 2)],
-                                   maxlen=deep_len, **compact)
+    # (B') every action sequence up to cache_len over the cached-view / copy / edit alphabet
+    sim_depth = 4
+    with cf.ThreadPoolExecutor(max_workers=4) as ex:
+        # (C) seeded simulation of the full alphabet, deeper (thorough tier: TLC computes every successor at every step)
+        fc = None if quick else ex.submit(simulate_machine, ctx, "MC_sim", 200, sim_depth, shapes=shapes_upto(4))
+        fa = ex.submit(enumerate_machine, ctx, "MC_wide", shapes=shapes_upto(wide_cells), maxlen=1)
+        # (thorough: every sequence on every mask of 1x2 and 2x2 is explored and checked; those of 1x2 are dumped for replay)
+        fb = ex.submit(enumerate_machine, ctx, "MC_deep", shapes=[(1, 2), (2, 2)], maxlen=deep_len,
+                       dump_shapes=None if quick else [(1, 2)], **COMPACT)
+        fk = ex.submit(enumerate_machine, ctx, "MC_cache", shapes=[(1, 3)], maxlen=cache_len, **CACHE)
+        (resA, behA), (resB, behB), (resK, behK) = fa.result(), fb.result(), fk.result()
+        behC = [] if fc is None else fc.result()
     ctx.exhaustive = True
-    # (C) seeded simulation of the full alphabet, deeper
-    sim_depth = 3 if quick else 4
-    behC = simulate_machine(ctx, "MC_sim", 120 if quick else 1500, sim_depth, shapes=shapes_upto(wide_cells))
-    # (D) seeded random larger frames and longer histories
-    nD = 40 if quick else 600
+    # (D) seeded random larger frames and longer histories (kinds and values beyond the machine's alphabet)
+    nD = 50 if quick else 1000
     behD = [random_behaviour(rng, 5 if quick else 8, int(rng.integers(4, 9 if quick else 13))) for _ in range(nD)]
 
-    def pick(behs, n):
-        if len(behs) <= n:
-            return behs
-        idx = sorted(rng.choice(len(behs), size=n, replace=False).tolist())
-        return [behs[k] for k in idx]
-
-    selA = pick(behA, 450 if quick else 12000)
-    selB = pick(behB, 250 if quick else 6000)
+    selA = cover(behA, rng, 300 if quick else 10000)
+    selB = cover(behB, rng, 1350 if quick else 7000)
+    selK = cover(behK, rng, 600 if quick else 4000)
     ctx.bounds = {"wide": {"frames_up_to_cells": wide_cells, "max_len": 1, "behaviours_enumerated": len(behA), "replayed": len(selA)},
-                  "deep": {"max_len": deep_len, "behaviours_enumerated": len(behB), "replayed": len(selB), "alphabet": compact},
+                  "deep": {"max_len": deep_len, "behaviours_enumerated": len(behB), "replayed": len(selB), "alphabet": COMPACT},
+                  "cache": {"max_len": cache_len, "behaviours_enumerated": len(behK), "replayed": len(selK), "alphabet": CACHE,
+                            "classes": CACHED_CLASSES},
                   "simulated": {"depth": sim_depth, "behaviours": len(behC)},
                   "random": {"behaviours": len(behD), "max_side": 5 if quick else 8},
+                  "selection": "one behaviour of every signature (which action kind touches which object, in order), then a seeded sample",
                   "classes": CLASSES}
     epis, ep = make_episodes(selA + selB + behC + behD, 0)
-    done = perform(epis)
-    ctx.replayed = len(selA) + len(selB) + len(behC)
-    rejects, nrec = validate(ctx, done, "X08", nchunks=16 if quick else 48)
-    mid = done[len(done) // 3]
-    ctx.sample({"episode": {k: v for k, v in mid[0].items() if k in ("cls", "h", "w", "u", "nat", "actions")},
-                "last_record": {k: v for k, v in mid[1][-1].items() if k in ("a", "op", "kind", "view", "res", "obs", "unchanged", "raised")}})
+    epis2, ep = make_episodes(selK, ep, classes=CACHED_CLASSES)
+    epis += epis2
+    ctx.replayed = len(selA) + len(selB) + len(selK) + len(behC)
+    # performed and judged in batches (memory): episodes are interleaved so that every batch mixes all families
+    nb = 1 if quick else 6
+    rejects, nrec = [], 0
+    for j in range(nb):
+        done = perform(epis[j::nb])
+        rj, n = validate(ctx, done, f"X08b{j}", nchunks=16)
+        rejects += rj
+        nrec += n
+        if j == 0:
+            mid = done[len(done) // 3]
+            ctx.sample({"episode": {k: v for k, v in mid[0].items() if k in ("cls", "h", "w", "u", "nat", "actions")},
+                        "last_record": {k: v for k, v in mid[1][-1].items()
+                                        if k in ("a", "op", "kind", "view", "res", "obs", "unchanged", "raised")}})
+        del done
     ctx.sample({"machine_behaviour": behB[len(behB) // 2]})
-    ctx.note(f"{len(behA)} wide + {len(behB)} deep behaviours enumerated by TLC ({resA.distinct}+{resB.distinct} states), "
-             f"{len(selA)}+{len(selB)} of them, {len(behC)} simulated and {len(behD)} random ones instantiated for every class -> "
-             f"{len(epis)} episodes, {nrec} records judged by Trace_Algebra, {len(rejects)} rejected")
+    ctx.note(f"TLC enumerated {len(behA)} wide + {len(behB)} deep + {len(behK)} cache behaviours "
+             f"({resA.distinct}+{resB.distinct}+{resK.distinct} states, all design invariants hold); {len(selA)}+{len(selB)}+{len(selK)} of them, "
+             f"{len(behC)} simulated and {len(behD)} random ones were performed on real objects of every class -> {len(epis)} episodes, "
+             f"{nrec} records judged by Trace_Algebra, {len(rejects)} rejected")
+    if not quick:
+        design_counterexamples(ctx)
     observed_not_judged(ctx)
     ctx.assumptions = [
         "every IEEE double is abstracted exactly as n*2^-e; entries with |n| >= 2^14 or |e| >= 8 and results of x/0 or of an "
         "inexact operation (divisor not +-2^k, exponent outside 0..3, root of a non-square) are not judged",
+        "abs() of a complex array (C library hypot, accurate to an ulp but not exact) is abstracted onto the 2^-20 lattice with a "
+        "1e-9 relative residual check; every other value is abstracted without any rounding",
         "'unchanged' is decided on bytes (entries, mask, pixel scales, origin); 'reports own content' by a cold twin built from "
         "a copy of the current entries with the public constructor",
         "TLC 1.8 / SANY / CommunityModules",
     ]
+
+
+def design_counterexamples(ctx):
+    """the two design switches: TLC must find the counterexample when a switch is set the wrong way"""
+    for name, kw, inv in (("SetItemDropsCaches=FALSE", dict(drops=False), "ReadsReportOwnContent"),
+                          ("CopySharesArray=TRUE", dict(shares=True), "CopyIndependent")):
+        kk = dict(CACHE)
+        kk.update(kw)
+        res = ctx.tlc(MODULE, machine_cfg(only=[inv]), defs=machine_defs(shapes=[(1, 2)], maxlen=3, **kk), tag="MC_cex_" + name[:4],
+                      timeout=600, allow_errors=True, env={"_JAVA_OPTIONS": "-Xss32m"})
+        hit = any(inv in e for e in res.errors)
+        if not hit:
+            raise core.MachineryError(f"Algebra.tla with {name} did not violate {inv}: {res.errors[:2]}")
+        ctx.note(f"design switch {name}: TLC reports invariant {inv} violated (the counterexample history), as it must")
 
 
 def replay(ctx, rp):
